@@ -340,3 +340,47 @@ Definition with_stored (b : block) (d : Q) : block :=
      b_adc := b_adc b; b_ext := b_ext b |}.
 Definition reread_block (sys : system) (b : block) : block :=
   with_stored b (inject_Z (blocks_column sys b) * s_block_raster sys).
+
+(* ------------------------------------------- the two block tables of a Sequence (round 4) ---- *)
+(* block_events and block_durations are two insertion-ordered dicts keyed by the block number;
+   duration() walks the keys of block_events and looks each duration up, while TotalDuration,
+   calculate_kspace and the time_range tables take block_durations.values() directly *)
+Definition dur_table := list (Z * Q).
+Fixpoint tbl_lookup (k : Z) (t : dur_table) : option Q :=
+  match t with [] => None | (k', v) :: r => if Z.eqb k k' then Some v else tbl_lookup k r end.
+(* d[k] = v on an insertion-ordered dict: overwrite in place, else append *)
+Fixpoint tbl_set (k : Z) (v : Q) (t : dur_table) : dur_table :=
+  match t with
+  | [] => [(k, v)]
+  | (k', v') :: r => if Z.eqb k k' then (k, v) :: r else (k', v') :: tbl_set k v r
+  end.
+Fixpoint keys_set (k : Z) (ks : list Z) : list Z :=
+  match ks with [] => [k] | k' :: r => if Z.eqb k k' then k' :: r else k' :: keys_set k r end.
+
+Record tl_state := { tl_keys : list Z; tl_durs : dur_table }.
+Definition tl_empty : tl_state := {| tl_keys := []; tl_durs := [] |}.
+(* block.py:267-268: self.block_events[i] = new_block; self.block_durations[i] = float(duration) *)
+Definition tl_set_block (k : Z) (d : Q) (st : tl_state) : tl_state :=
+  {| tl_keys := keys_set k (tl_keys st); tl_durs := tbl_set k d (tl_durs st) |}.
+(* read_seq.py:59,130: both tables are REPLACED by the tables built from the [BLOCKS] section *)
+Definition tl_read (file : dur_table) (st : tl_state) : tl_state :=
+  {| tl_keys := map fst file; tl_durs := file |}.
+(* the seeded / hypothetical variant that merges the file into the old duration table *)
+Definition tl_read_merging (file : dur_table) (st : tl_state) : tl_state :=
+  {| tl_keys := map fst file;
+     tl_durs := fold_left (fun t kv => tbl_set (fst kv) (snd kv) t) file (tl_durs st) |}.
+
+(* duration(): for block_counter in self.block_events: duration += self.block_durations[block_counter] *)
+Fixpoint tl_duration_go (ks : list Z) (t : dur_table) (acc : Q) : option Q :=
+  match ks with
+  | [] => Some acc
+  | k :: r => match tbl_lookup k t with Some v => tl_duration_go r t (acc + v) | None => None end
+  end.
+Definition tl_duration (st : tl_state) : option Q := tl_duration_go (tl_keys st) (tl_durs st) 0.
+(* sum(self.block_durations.values()) *)
+Definition tl_sum (st : tl_state) : Q := fold_left Qplus (map snd (tl_durs st)) 0.
+
+Inductive tl_op := OpSet (k : Z) (d : Q) | OpRead (file : dur_table).
+Definition tl_step (st : tl_state) (o : tl_op) : tl_state :=
+  match o with OpSet k d => tl_set_block k d st | OpRead f => tl_read f st end.
+Definition tl_run (ops : list tl_op) : tl_state := fold_left tl_step ops tl_empty.
